@@ -96,12 +96,27 @@ class HostKeys(MutableMapping):
                 except SSHException:
                     continue
                 if entry is not None:
-                    _hostnames = entry.hostnames
-                    for h in _hostnames:
-                        if self.check(h, entry.key):
+                    # iterate over a copy: names are removed from the entry
+                    for h in list(entry.hostnames):
+                        if self._has_entry(h, entry.key):
                             entry.hostnames.remove(h)
                     if len(entry.hostnames):
                         self._entries.append(entry)
+
+    def _has_entry(self, hostname, key):
+        """
+        Whether some entry already lists ``hostname`` with exactly ``key``
+        (unlike `check`, this looks at every entry, not only the first one of
+        the key's type).
+        """
+        for e in self._entries:
+            if (
+                self._hostname_matches(hostname, e)
+                and e.key.get_name() == key.get_name()
+                and e.key.asbytes() == key.asbytes()
+            ):
+                return True
+        return False
 
     def save(self, filename):
         """
